@@ -41,6 +41,18 @@ func (p *pipe) setBuffer(b pipeBuffer) {
 	p.b = b
 }
 
+// discardUnread drops the buffered bytes and returns the number of unread
+// bytes, as BreakWithError does, but leaves the error a reader will see alone.
+func (p *pipe) discardUnread() int {
+	p.mu.Lock()
+	defer p.mu.Unlock()
+	if p.b != nil {
+		p.unread += p.b.Len()
+		p.b = nil
+	}
+	return p.unread
+}
+
 func (p *pipe) Len() int {
 	p.mu.Lock()
 	defer p.mu.Unlock()
